@@ -43,6 +43,9 @@ def defining_class(fn):
     return o if isinstance(o, type) else None
 
 
+BXOR = z3.Function('bxor', z3.IntSort(), z3.IntSort(), z3.IntSort())
+
+
 class Interp(object):
     def __init__(self, config=None):
         self.config = config or {}
@@ -1337,8 +1340,15 @@ class Interp(object):
                 return self.wrap_int(y + xc - self.and_const(y, xc))
             return self.wrap_int(self.or_terms(x, y))
         if op == 'BitXor':
-            # a ^ b = (a | b) - (a & b); only supported when bits are disjoint
-            return self.wrap_int(self.or_terms(x, y, what='^'))
+            # exact when the operands provably occupy disjoint bits; otherwise the uninterpreted
+            # function bxor (the same symbol for code and specification, evaluated when concrete)
+            xc, yc = self.unique_const(x), self.unique_const(y)
+            if xc is not None and yc is not None:
+                return xc ^ yc
+            try:
+                return self.wrap_int(self.or_terms(x, y, what='^'))
+            except OutOfReach:
+                return self.wrap_int(BXOR(self.rw(x), self.rw(y)))
         if op == 'Div':
             raise OutOfReach('true division')
         raise OutOfReach('int op %s' % op)
@@ -1513,6 +1523,10 @@ class Interp(object):
             if op == 'Eq':
                 return self.wrap_bool(e) if not isinstance(e, bool) else e
             return (not e) if isinstance(e, bool) else self.wrap_bool(z3.Not(e))
+        if isinstance(a, float) and a.is_integer():
+            a = int(a)
+        if isinstance(b, float) and b.is_integer():
+            b = int(b)
         if self.is_intlike(a) and self.is_intlike(b):
             x, y = self.int_term(a), self.int_term(b)
             t = {'Lt': x < y, 'LtE': x <= y, 'Gt': x > y, 'GtE': x >= y}[op]
